@@ -15,7 +15,7 @@ RULE = (
     "Unmatched instance-map pairs in which references are covered by 2-4 prediction fragments (cuts along random axes, "
     "then shifts/grow/shrink/spurious/deleted instances; competing references; stray fragments; 1-3-D; plus a 1-D "
     "family of one reference block cut into 3-4 fragments that spill outside by drawn amounts) x metric in {IoU, "
-    "Dice, ASSD} x threshold (grid, floats, exact candidate scores). Oracle: validity predicates (each prediction <=1 "
+    "Dice, ASSD} x threshold (grid, floats, exact candidate scores) x fresh matcher object or one that has matched the mirrored / rolled / exchanged pair before. Oracle: validity predicates (each prediction <=1 "
     "reference; seed meets the threshold on its own; every further member strictly improves the cumulative score in the "
     "metric's direction; final score >= seed score and meets the threshold) + membership in the reference model's merge "
     "outcomes under every order of tied candidates (equality when unique). Non-trivial: some reference overlaps >=2 "
